@@ -3,6 +3,10 @@
 import json, subprocess
 ALL = ["C%02d" % i for i in range(1, 21)]
 CHECKS = {
+ "C07": dict(level="exploration", design="§4 C07",
+   technique="runtime monitoring on virtual time: offline checker over exact virtual timestamps of ping packetCreate, heartbeat and close events under a client-delay grid; gate lane between ping send and timeout arming; wrong-direction and EIO-mismatch lanes",
+   text="Sessions run inside a synctest bubble so PI and PT deadlines are hit exactly; the client answers each ping at 0, PT/2, PT-1ns, PT, PT+1ns, never, twice or unsolicited (v4), or pings at fractions of PI+PT including exactly PI+PT (v3); the checker demands each ping exactly PI after open / after the accepted pong, 'ping timeout' exactly at ping+PT and never for a client that answered in time, v3 pongs for every ping and expiry exactly PI+PT after the last ping, and a transport-error close (only of that session) for wrong-direction heartbeats incl. sessions whose upgrade transport used another EIO value.",
+   note="Virtual time is Go's synctest clock; coincidence at exactly the deadline instant is accepted either way. Hook socket.ping.between is a build-tagged yield point."),
  "C06": dict(level="exploration", design="§4 C06",
    technique="runtime monitoring: handshakes under generated server option combinations; open packet, registry, connection events, initial packet and heartbeat mode compared with the configuration (3-5 sessions per server)",
    text="For each generated option combination a real server is started and 3-5 clients handshake over polling, JSONP, WebSocket and in-memory WebTransport with EIO 4, 3 or absent; the monitor checks one connection event and one registry entry per admitted handshake, the open packet's JSON against the effective options (upgrades as a set), the initial packet as first message of every session with its kind, Protocol() and heartbeat mode per revision, and refusal of revision 3 when disallowed.",
